@@ -58,7 +58,6 @@ def run_history(run, rng, hid, maxlen, steps):
         op = O.prepare_op(op)
         if op is None:
             continue
-        value_obj = op[4] if op[0] == "set" else None
         case = {"history": hid, "step": stepno, "pre": pre, "op": op[:4]}
         try:
             out = O.apply_impl(td, op)
@@ -155,7 +154,7 @@ def main():
         replay_file(run, str(f), quiet=True)
     nh, maxlen = (1200, 25) if run.tier == "quick" else (12000, 25)
     steps = []
-    with time_limit(80 if run.tier == "quick" else 800):
+    with time_limit(300 if run.tier == "quick" else 2400):
         for hid in range(nh):
             run_history(run, rng, hid, maxlen, steps)
     reqs = [f"(c01.step {O.sx_tree(s['pre'])} {O.sx_op(s['op'])})" for s in steps]
